@@ -48,11 +48,20 @@ func runC07(r *core.Run) {
 		gens := append([]colGen{genID}, kinds...)
 		t := genTable(r, "t", cols, gens, n)
 		nk := 1 + rng.Intn(3)
+		// every fourth case aims the cut of LIMIT .. WITH TIES into a group of equal keys: one or two keys
+		// with few distinct values in several spellings, limit anywhere inside the table
+		tiecut := c%4 == 1 && n >= 3
+		if tiecut {
+			nk = 1 + rng.Intn(2)
+		}
 		var keys []sortKey
 		var parts []string
 		used := map[int]bool{}
 		for len(keys) < nk {
 			ci := 2 + rng.Intn(5)
+			if tiecut {
+				ci = []int{2, 4, 2}[rng.Intn(3)] // k1: -3..3 as 3, 3.0, " 3 ", 03, 3.5; k3: 0..2
+			}
 			if used[ci] {
 				continue
 			}
@@ -81,7 +90,12 @@ func runC07(r *core.Run) {
 		lim := map[string]interface{}{"k": "none", "n": 0}
 		ties := false
 		vals := []int{-1, 0, 1, 2, 3, 5, n - 1, n, n + 1, n / 2, 1000}
-		if rng.Intn(3) > 0 {
+		if tiecut {
+			x := 1 + rng.Intn(n-1)
+			lim = map[string]interface{}{"k": "n", "n": x}
+			sql += fmt.Sprintf(" LIMIT %d WITH TIES", x)
+			ties = true
+		} else if rng.Intn(3) > 0 {
 			switch rng.Intn(3) {
 			case 0:
 				x := vals[rng.Intn(len(vals))]
@@ -98,7 +112,7 @@ func runC07(r *core.Run) {
 				ties = true
 			}
 		}
-		if rng.Intn(2) == 0 {
+		if rng.Intn(2) == 0 && !(tiecut && rng.Intn(2) == 0) {
 			m = vals[rng.Intn(len(vals))]
 			sql += fmt.Sprintf(" OFFSET %d", m)
 		}
